@@ -1,7 +1,7 @@
 (* Qc instance of the generic run functions, evaluated by vm_compute. *)
 From Coq Require Import List ZArith QArith Qcanon Bool.
 From PD Require Import Base.Field Base.Matrix Base.Solve Model.Gauss Model.Poly
-  Model.Prior Model.Solver Run.Show Run.GenRun.
+  Model.Prior Model.Solver Model.Error Run.Show Run.GenRun.
 Import ListNotations.
 
 Definition QcMat := @mat Qc.
@@ -22,3 +22,5 @@ Definition fixed_grid_run cf t0 u0 dts := showQc (@g_fixed_grid Qc _ cf t0 u0 dt
 Definition step_run cf st dt := showQc (@g_step Qc _ cf st dt).
 Definition finalize_run cf st0 sts st1 := showQc (@g_finalize Qc _ cf st0 sts st1).
 Definition spec_smooth_run cf st0 sts dts := showQc (@g_spec_smooth Qc _ cf st0 sts dts).
+Definition error_run cf est per_unit prev_u t_prop dt ref atol rtol nk :=
+  showQc (@g_error Qc _ cf est per_unit prev_u t_prop dt ref atol rtol nk).
